@@ -13,8 +13,10 @@ META = {
                    'text of sampled inputs: a row assembled by work_package from tokens without comma/parenthesis/blank is re-read by the '
                    'statistics step as exactly those tokens in order; columns line up with the header iff every requested output is found '
                    'exactly once in the report (REFUTED otherwise: the code skips what it does not find - known finding, reproduced on the '
-                   'real driver); atomic appends in any order give a permutation of the rows and, with mutual exclusion of the lock, the file '
-                   'holds exactly the finished work packages; a failing iteration removes its own row only; minimum, maximum, median, mean '
+                   'real driver); every sampled input is a line of its own of the iteration input for every base file (current code, db0b708; '
+                   'the earlier append without new line is kept as input_file_pinned with its _refuted theorem and a corpus seed); atomic '
+                   'appends in any order give a permutation of the rows and under the lock protocol without time-out the file holds '
+                   'exactly the finished work packages; a failing iteration removes its own row only; minimum, maximum, median, mean '
                    'and variance are permutation invariant and ordered (min <= median, mean <= max). Tied to the current code on every run: '
                    'every row of real runs (HIP-RA-X and GEOPHIRES, 1..16 workers, injected failing iterations) is re-simulated through the '
                    "program's client and the row recomputed by the Coq model from that report must equal the row byte for byte; header, "
@@ -35,7 +37,7 @@ META = {
                  'numpy nanmin/nanmax/nanmedian/average/nanmean/nanstd (axis 0) over exact rationals', 'Python str.strip/split/partition/replace'],
     'assumptions': ['names and values of sampled inputs contain neither a new line nor ", " (true of every settings file: lines are split on commas)',
                     'a row is written by one write() on an O_APPEND descriptor (atomic)',
-                    'pylocker mutual exclusion is NOT assumed: see C13_row_count_refuted; lost rows are reported under C13'],
+                    'pylocker mutual exclusion is NOT assumed (C13_row_count_partial); rows lost by the lock time-out are reported under C13'],
     'fingerprint': [('src/geophires_monte_carlo/MC_GeoPHIRES3.py', 'work_package'), ('src/geophires_monte_carlo/MC_GeoPHIRES3.py', 'main')],
 }
 
